@@ -1,11 +1,11 @@
 package main
 
 import (
-	"math"
 	"bytes"
 	"crypto/aes"
 	"encoding/binary"
 	"fmt"
+	"math"
 	"os"
 	"runtime"
 	"sort"
@@ -55,15 +55,15 @@ type World struct {
 	pubs     []*server.PayloadMessage
 	pubch    map[protocol.EUI]<-chan *server.PayloadMessage
 	// stepped mode
-	stepped  bool
-	parked   map[uint64]*parkedG
-	order    []uint64 // thread numbering by first appearance
-	failNext map[uint64]error
-	dead     map[uint64]bool
-	threadOf map[uint64]int // which injected frame a goroutine works for (stepped runs with two frames)
+	stepped   bool
+	parked    map[uint64]*parkedG
+	order     []uint64 // thread numbering by first appearance
+	failNext  map[uint64]error
+	dead      map[uint64]bool
+	threadOf  map[uint64]int // which injected frame a goroutine works for (stepped runs with two frames)
 	curThread int
-	epoch    int
-	myEpoch  int
+	epoch     int
+	myEpoch   int
 }
 
 type parkedG struct {
@@ -615,7 +615,6 @@ func (w *World) restart() {
 	w.mu.Unlock()
 	w.open()
 }
-
 
 // runSched feeds two packets and interleaves their handlers operation by operation: sched[i]
 // says which frame's handler performs the i-th operation when both have one pending (false = the
